@@ -1209,8 +1209,10 @@ func (tc *typechecker) checkBuiltinCall(expr *ast.Call) []*typeInfo {
 				tc.checkExpr(expr.IR.AppendArg1)
 			} else {
 				elemType := slice.Type.Elem()
+				// The argument must be assignable to the slice type []T,
+				// where T is the element type of the first argument.
 				if t.Type.Kind() != reflect.Slice ||
-					tc.isAssignableTo(&typeInfo{Type: t.Type.Elem()}, arg1, elemType) != nil {
+					tc.isAssignableTo(t, arg1, tc.types.SliceOf(elemType)) != nil {
 					panic(tc.errorf(expr, "cannot use %s (type %s) as type []%s in append", arg1, t, elemType))
 				}
 			}
